@@ -17,6 +17,10 @@ exit <p> <normal|exc|int|osexit|kill|term>
 new <p> <o> <nsems>                                        a primitive made of nsems SemLocks (object group o)
 del <p> <o>                                                group o collected (owner: finalizers; copy: nothing)
 killnew <p>                                                SIGKILL between sem_open and REGISTER
+killfin <p> <o>                                            SIGKILL inside the finalizer of the (single-SemLock) group o:
+                                                           after `sem_unlink`, before UNREGISTER
+spawn <p> <c> <loky|loky_init_main> <pairs> <file>         as spawn; c re-imports the main module, which registers
+                                                           <file> at import time (a tracked operation of c)
 end
 ledger <clean|kill|broken|idle|dropped|unused|resized> <n> <m> <l0>   (m: new size / self-inflicted deaths; l0: lingering before)
 ```
@@ -164,6 +168,23 @@ def handle (d : D) (ws : List String) : D × String :=
       let d := d.settle
       (d, observe d (d.s.procs p).trk (d.s.procs c).trk (warnedOf d p - w0))
     | _, _, _ => (d, "bad-op")
+  | ["spawn", p, c, m, pairs, f] =>
+    match p.toNat?, c.toNat?, parsePairs pairs, f.toNat? with
+    | some p, some c, some prs, some f =>
+      if m != "loky_init_main" then (d, "bad-op") else
+      match fileName d f with
+      | some n =>
+        let w0 := warnedOf d p
+        let d := d.step (.spawn p c true)
+        let d := d.step (.op c .register n)                -- prepare(): tracker installed, then `__main__` re-imported
+        let d := prs.foldl (fun d pr =>
+          let k := groupSize d pr.1
+          let d := (List.range k).foldl (fun d i => d.step (.copy p (oid pr.1 i) c (oid pr.2 i))) d
+          { d with groups := (pr.2, k) :: d.groups }) d
+        let d := d.settle
+        (d, observe d (d.s.procs p).trk (d.s.procs c).trk (warnedOf d p - w0))
+      | none => (d, "bad-op")
+    | _, _, _, _ => (d, "bad-op")
   | ["op", p, o, f] =>
     match p.toNat?, parseOp o, f.toNat? with
     | some p, some o, some f =>
@@ -242,6 +263,14 @@ def handle (d : D) (ws : List String) : D × String :=
       let d := (d.step (.exit p .crash)).settle
       (d, observe d none none 0)
     | none => (d, "bad-op")
+  | ["killfin", p, o] =>
+    match p.toNat?, o.toNat? with
+    | some p, some o =>
+      if groupSize d o != 1 then (d, "bad-op") else
+      let d := d.step (.finUnlink p (oid o 0))             -- `sem_unlink` done, the process dies before UNREGISTER
+      let d := (d.step (.exit p .crash)).settle
+      (d, observe d none none 0)
+    | _, _ => (d, "bad-op")
   | ["ledger", kind, n, m, l0] =>
     match n.toNat?, m.toNat?, l0.toNat? with
     | some n, some m, some l0 => (d, LedgerLine.line kind n m l0)
